@@ -1199,8 +1199,10 @@ vbi_decode_vps(vbi_decoder *vbi, uint8_t *buf)
 		}
 
 		if (id != n->nuid) {
+			/* Identified by its CNI, also when the table
+			   does not know it (id 0); announced below. */
 			if (n->nuid != 0)
-				vbi_chsw_reset(vbi, id);
+				vbi_chsw_reset(vbi, /* identified */ TRUE);
 
 			n->nuid = id;
 
@@ -1284,8 +1286,10 @@ parse_bsd(vbi_decoder *vbi, uint8_t *raw, int packet, int designation)
 				}
 
 				if (id != n->nuid) {
+					/* Identified by its CNI, also when the table
+					   does not know it (id 0); announced below. */
 					if (n->nuid != 0)
-						vbi_chsw_reset(vbi, id);
+						vbi_chsw_reset(vbi, /* identified */ TRUE);
 
 					n->nuid = id;
 
@@ -1374,8 +1378,10 @@ parse_bsd(vbi_decoder *vbi, uint8_t *raw, int packet, int designation)
 				}
 
 				if (id != n->nuid) {
+					/* Identified by its CNI, also when the table
+					   does not know it (id 0); announced below. */
 					if (n->nuid != 0)
-						vbi_chsw_reset(vbi, id);
+						vbi_chsw_reset(vbi, /* identified */ TRUE);
 
 					n->nuid = id;
 
